@@ -148,6 +148,12 @@ def answer (ws : List String) : String :=
     | _, none => "bad-case output"
     | some c, some o =>
       if !wf c o.stream then "bad-case not-wf" else
+      if (getKV (kvOf post) "twin").isSome then
+        -- the same add through Cluster.AddFile / the HTTP handler: held to the Spec only (its block order is not recorded)
+        let failed := (clauses c (o.view c.shard)).filter (fun x => !x.2)
+        if !failed.isEmpty then "propfail " ++ ",".intercalate (failed.map (·.1)) ++ " arm=entry-point-twin"
+        else "ok arm=entry-point-twin"
+      else
       let m := run c o.stream o.fin
       let a := arm c o m
       let failed := (clauses c (o.view c.shard)).filter (fun x => !x.2)
